@@ -69,7 +69,7 @@ theorem lexAll_bounds (escc : Nat) (rs : List Rune) (pos : Nat) :
         have h3 := collectLine_written' escc (consumeWS rest pos1).1 (consumeWS rest pos1).2
         have hlt : (collectLine escc (consumeWS rest pos1).1 { pos := (consumeWS rest pos1).2 }).2.length < n := by omega
         have := ih _ hlt _ (collectLine escc (consumeWS rest pos1).1 { pos := (consumeWS rest pos1).2 }).1.pos rfl
-        simp only [List.length_cons, written, List.map_cons, List.sum_cons] at this ⊢
+        simp only [List.length_cons, written, List.map_cons, List.sum_cons, List.length_reverse] at this ⊢
         constructor <;> omega
       · split
         · -- an instruction
@@ -87,6 +87,7 @@ theorem lexAll_bounds (escc : Nat) (rs : List Rune) (pos : Nat) :
           · simp [written, lostError]
           · rename_i it hsome
             have h4 := instructionItem_val_le _ _ _ hsome
+            simp only [List.length_reverse] at h4
             have hlt : rs3.length < n := by omega
             have := ih _ hlt rs3 s.pos rfl
             simp only [List.length_cons, written, List.map_cons, List.sum_cons] at this ⊢
